@@ -41,6 +41,12 @@ def proj(conn):
     keys = []
     for ep_, pair in sorted(getattr(conn, "_cryptos", {}).items(), key=lambda kv: kv[0].value):
         keys.append("%s:%d%d:%d" % (ep_.name, pair.recv.is_valid(), pair.send.is_valid(), pair.recv.key_phase))
+    if not conn._is_client and conn._state.name == "FIRSTFLIGHT":
+        # a server that has not accepted anything yet sets up its TLS engine and derives the (public) Initial keys from
+        # whatever Initial packet it is shown, genuine or not: that is neither an event nor an advance of the handshake,
+        # so a fresh server and one that has only seen unauthentic Initial packets project to the same value
+        tlsst = "SERVER_EXPECT_CLIENT_HELLO" if tlsst in ("-", "SERVER_EXPECT_CLIENT_HELLO") else tlsst
+        keys = [k for k in keys if not k.startswith("INITIAL:") and ":00:" not in k]     # (":00:" = no key installed)
     return json.dumps([conn._state.name, tlsst, bool(conn._handshake_complete), bool(conn._handshake_confirmed), keys,
                        bool(conn._close_pending), conn._close_event is not None, conn._retry_count,
                        sorted((sid, st.receiver.highest_offset, st.receiver.is_finished) for sid, st in conn._streams.items())])
@@ -94,7 +100,12 @@ def forge_series(s, idx, lines, rnd, thorough, budget):
     d = s.net[idx]
     dst = d["dst"]
     if dst == "s" and "s" not in s.eps:
-        return
+        # the very first datagram: the server object exists (created for the genuine original destination connection ID, as
+        # an application that feeds one QuicConnection would) and is shown the altered copies before the genuine packet
+        pk = d["pkts"][0] if d["pkts"] else None
+        if not pk or pk["type"] != "initial" or not pk.get("ok"):
+            return
+        s._make_server(pk["dcid"])
     conn = s.eps[dst]
     if s.terminated[dst]:
         return
@@ -208,7 +219,8 @@ def inbound(s, dst, lines, rnd):
     for pnlen in (1, 2, 3, 4):
         for size in (3, 4, 5, 20, 21, 100, 700, mds - 60, mds - 40):
             payload = H.f_ping() + H.f_padding(size - 1)
-            H.inject(s, src, "1rtt", payload, "inbound", pnlen=pnlen)
+            if not H.inject(s, src, "1rtt", payload, "inbound", pnlen=pnlen):
+                return                     # no 1-RTT keys (the handshake did not complete): nothing to protect a packet with
             inj = next(e for e in reversed(s.log) if e["k"] == "inject")
             lines.append({"ev": "inbound", "ep": dst, "pnlen": pnlen, "size": size, "accepted": bool(inj["accepted"])})
             while s.net:
@@ -402,6 +414,9 @@ def run(check):
     check.cov["emitted_packets_opened_by_observer"] = sum(r_["emitted"] for r_ in results)
     check.cov["states_in_which_forgeries_arrived"] = sorted({st for r_ in results for st in r_["states"]})
     check.cov["scenarios_with_api_exception"] = sum(1 for r_ in results if r_["raised"])
+    check.cov["inbound_packets_from_independent_encryptor"] = sum(1 for l in lines if l["ev"] == "inbound")
+    if not check.violations and check.cov["inbound_packets_from_independent_encryptor"] < 36 * 3:
+        raise MachineryError("vacuous: the independent encryptor delivered too few packets")
     fl = [l for l in lines if l["ev"] == "forge"]
     check.sample({"forge": fl[len(fl) // 2] if fl else None, "pn": lines[0], "inbound": next((l for l in lines if l["ev"] == "inbound"), None)})
     check.cov["rule"] = ("one case = one configuration (cipher suite x version x max_datagram_size) driven through handshake, data in both "
